@@ -2,6 +2,7 @@
 
 From CubedV Require Import Model.Util Model.Keys Model.Geometry Model.OpsKF Model.ShapeSem Proofs.GeometryProofs Proofs.OpsKFProofs Proofs.ShapeSemProofs.
 From CubedV Require Import Model.Selection Proofs.SelectionProofs.
+From CubedV Require Import Model.StridedIndex Proofs.StridedIndexProofs.
 From Coq Require Import Permutation.
 
 
@@ -118,4 +119,34 @@ Proof. vm_compute; reflexivity. Qed.
 Example C01_sel_ex_concat_kf :
   concat_kf [7; 8; 9] [[2; 3]; [2; 3]; [2; 3]] [0; 5; 5; 9] 0 [4; 3] [9; 6] [1; 1]
   = [(7, [2; 1]); (9, [0; 1]); (9, [1; 1])].
+Proof. vm_compute; reflexivity. Qed.
+
+(* StridedIndex: one axis indexed by a positive-step slice (chunk_len_for_indexer, _target_chunk_selection, _index_num_input_blocks) *)
+
+Theorem C01_si_blocks_tile_selection : forall start step oc L, 0 < oc ->
+  concat (map (block_positions start step oc L) (seq 0 (num_out_blocks oc L))) = map (sel_pos start step) (seq 0 L).
+Proof. exact (blocks_tile_selection). Qed.
+Print Assumptions C01_si_blocks_tile_selection.
+
+Theorem C01_si_block_positions_is_slice : forall start step oc L j, 0 < step -> 0 < oc -> j < num_out_blocks oc L ->
+  let (lo, hi) := block_sel start step oc L j in
+  block_positions start step oc L j = map (fun i => lo + i * step) (seq 0 ((hi - lo + step - 1) / step)).
+Proof. exact (block_positions_is_slice). Qed.
+Print Assumptions C01_si_block_positions_is_slice.
+
+Theorem C01_si_touched_at_most_two : forall c start step L j, 0 < c -> 0 < step -> j < num_out_blocks (out_chunk_len c step) L ->
+  length (touched_chunks c (block_positions start step (out_chunk_len c step) L j)) <= 2.
+Proof. exact (touched_at_most_two). Qed.
+Print Assumptions C01_si_touched_at_most_two.
+
+Theorem C01_si_touched_le_declared : forall n c start step L j, 0 < c -> 0 < step -> 0 < L -> start + (L - 1) * step < n ->
+  j < num_out_blocks (out_chunk_len c step) L ->
+  length (touched_chunks c (block_positions start step (out_chunk_len c step) L j))
+  <= slice_nib c ((n + c - 1) / c) start step L.
+Proof. exact (touched_le_declared). Qed.
+Print Assumptions C01_si_touched_le_declared.
+
+(* x[1:12:3] over chunks of 4: output chunk length 1, four output blocks reading positions 1, 4, 7, 10 (chunks 0, 1, 1, 2) *)
+Example C01_si_ex : (map (block_positions 1 3 1 4) [0; 1; 2; 3], map (fun j => touched_chunks 4 (block_positions 1 3 1 4 j)) [0; 1; 2; 3], slice_nib 4 4 1 3 4)
+  = ([[1]; [4]; [7]; [10]], [[0]; [1]; [1]; [2]], 2).
 Proof. vm_compute; reflexivity. Qed.
